@@ -127,6 +127,18 @@ def eval_measures(rec):
     meas = ev(rec["measure"], env)
     if cls in ("Circle", "Ellipse"):
         chk("area", "area", rec["measure"], lambda: P.area)
+        if cls == "Ellipse":
+            # the two rigorous enclosures of the spec (Gauss-Kummer series with tail bound, AGM with tail bound) must intersect,
+            # and the intersection must be tight enough to decide anything (non-vacuity)
+            ps, pa = ev(rec["perim_series"], env), ev(rec["perim_agm"], env)
+            lo, hi = max(ps[0], pa[0]), min(ps[1], pa[1])
+            if lo > hi + abs(hi) / 10 ** 30:          # sqrt (absolute 1e-50) and pi are truncated rationals in vh/terms.py
+                out.append(({"cls": "spec", "obs": "perimeter_enclosures", "tags": tags,
+                             "msg": f"Curved.tla: series enclosure [{float(ps[0])!r}, {float(ps[1])!r}] and AGM enclosure "
+                                    f"[{float(pa[0])!r}, {float(pa[1])!r}] do not intersect"}, {"case": rec}))
+            elif float(hi - lo) > 1e-12 * float(hi):
+                out.append(({"cls": "spec", "obs": "perimeter_enclosures", "tags": tags + ["loose"],
+                             "msg": f"Curved.tla: the perimeter enclosure has relative width {float((hi - lo) / hi):.2e}"}, {"case": rec}))
         chk("perimeter", "length", rec["boundary"], lambda: P.perimeter)
         chk("circumference", "length", rec["boundary"], lambda: P.circumference)
         e2 = ev(rec["ecc2"], env)
